@@ -32,7 +32,11 @@ func conc(v int, salt byte) []byte {
 	if v == 0 {
 		return nil
 	}
-	// value 1: a short value, value 2: a longer one; salt makes values of one run distinct from another's
+	// value 1: a short value, value 2: a longer one, value 3: the EMPTY value (stored, Has is true);
+	// salt makes values of one run distinct from another's
+	if v == 3 {
+		return []byte{}
+	}
 	if v == 1 {
 		return []byte{0x01, salt}
 	}
@@ -48,7 +52,10 @@ func abstractOf(bs []byte, has bool, salt byte) (int, error) {
 		}
 		return 0, nil
 	}
-	for v := 1; v <= 3; v++ {
+	if len(bs) == 0 {
+		return 3, nil
+	}
+	for v := 1; v <= 2; v++ {
 		if bytes.Equal(bs, conc(v, salt)) {
 			return v, nil
 		}
